@@ -7,6 +7,8 @@ import (
 	"sort"
 	"testing"
 
+	"github.com/DataDog/sketches-go/ddsketch"
+
 	"pgregory.net/rapid"
 	"verifharness/gen"
 	"verifharness/model"
@@ -647,5 +649,94 @@ func TestC11_HugeTotal(t *testing.T) {
 			}
 		}
 		cl.done(W >= 0x1p53)
+	})
+}
+
+// TestC12_MonotoneArbitraryWeights: weights that are not dyadic (0.9, 2.8, 1/3, ... in a shuffled order), stores whose
+// answers do not depend on map order (dense, collapsing, paginated). Nothing is compared with a model here; what must
+// hold whatever the rounding of the sums: for q1 < q2 the answers are ordered, also for quantiles that are adjacent
+// floats on either side of a cumulative weight or of half the total, the batch query equals the single queries, and
+// every answer lies between the reported minimum and maximum.
+func TestC12_MonotoneArbitraryWeights(t *testing.T) {
+	rapid.Check(t, func(t *rapid.T) {
+		cl := newCase("C12")
+		cl.label("arbitrary-weights-monotone")
+		spec, m := buildMapping(t, 1e-3, 0.3)
+		kind := rapid.SampledFrom([]gen.StoreKind{{Name: "dense"}, {Name: "dense"}, {Name: "paginated"}, {Name: "collow", N: 64}, {Name: "colhigh", N: 64}}).Draw(t, "kind")
+		s := ddsketch.NewDDSketch(m, kind.New(), kind.New())
+		base := m.Index(1)
+		n := rapid.IntRange(2, 12).Draw(t, "bins")
+		ws := make([]float64, n)
+		for i := range ws {
+			ws[i] = rapid.SampledFrom([]float64{0.9, 2.8, 2.5, 0.8, 0.1, 0.3, 1.0 / 3, 0.7, 1.1, 123.456, 1e15 + 0.5, 0x1p53 + 2, 7}).Draw(t, "w")
+		}
+		order := rapid.Permutation(func() []int {
+			o := make([]int, n)
+			for i := range o {
+				o[i] = i
+			}
+			return o
+		}()).Draw(t, "order")
+		neg := rapid.Bool().Draw(t, "neg")
+		for _, i := range order {
+			v := m.Value(base + i)
+			if neg {
+				v = -v
+			}
+			if err := s.AddWithCount(v, ws[i]); err != nil {
+				t.Fatalf("C12 monotone: AddWithCount: %v", err)
+			}
+		}
+		cl.logf("C12 monotone %s kind=%s weights=%v order=%v neg=%v", spec, kind, ws, order, neg)
+		count := s.GetCount()
+		var qs []float64
+		around := func(q float64) {
+			for d := -3; d <= 3; d++ {
+				if x := gen.NextUp(q, d); x >= 0 && x <= 1 {
+					qs = append(qs, x)
+				}
+			}
+		}
+		cum := 0.0
+		for i := 0; i < n; i++ {
+			j := i
+			if neg {
+				j = n - 1 - i
+			}
+			cum += ws[j]
+			around(cum / (count - 1))
+			around((cum - 1) / (count - 1))
+		}
+		around(count / 2 / (count - 1))
+		around(0.5)
+		qs = append(qs, 0, 1)
+		for i := 0; i < 8; i++ {
+			qs = append(qs, rapid.Float64Range(0, 1).Draw(t, "q"))
+		}
+		sort.Float64s(qs)
+		mn, _ := s.GetMinValue()
+		mx, _ := s.GetMaxValue()
+		batch, err := s.GetValuesAtQuantiles(qs)
+		if err != nil {
+			t.Fatalf("C12 monotone: GetValuesAtQuantiles: %v", err)
+		}
+		prev, prevq := math.Inf(-1), -1.0
+		for i, q := range qs {
+			y, err := s.GetValueAtQuantile(q)
+			if err != nil {
+				t.Fatalf("C12 monotone: GetValueAtQuantile(%v): %v", q, err)
+			}
+			if y != batch[i] {
+				t.Fatalf("C12 monotone %s: quantile %v: single query %v, batch query %v", kind, q, y, batch[i])
+			}
+			if y < mn || y > mx {
+				t.Fatalf("C12 monotone %s: quantile %v answered %v outside [%v,%v]", kind, q, y, mn, mx)
+			}
+			if y < prev {
+				t.Fatalf("C12 monotone %s: quantiles decrease: q=%v -> %v, q=%v -> %v (weights %v added in order %v)", kind, prevq, prev, q, y, ws, order)
+			}
+			prev, prevq = y, q
+		}
+		cl.done(true)
 	})
 }
